@@ -21,9 +21,10 @@ const queueSize = 100
 
 // TopoWatcher is a topology watcher
 type TopoWatcher struct {
-	topo   topo.Store
-	cancel context.CancelFunc
-	mu     sync.Mutex
+	topo           topo.Store
+	configurations configuration.Store
+	cancel         context.CancelFunc
+	mu             sync.Mutex
 }
 
 // Start starts the topo store watcher
@@ -86,6 +87,18 @@ func (w *TopoWatcher) Start(ch chan<- controller.ID) error {
 					configapi.TargetID(tgtEntity.ID),
 					configapi.TargetType(configurable.Type),
 					configapi.TargetVersion(configurable.Version)))
+
+				// ... and every other Configuration of the target: one made under another type or version
+				// (a version override) is mastered over the same connections
+				if configurations, err := w.configurations.List(ctx); err == nil {
+					for _, config := range configurations {
+						if config.TargetID == configapi.TargetID(tgtEntity.ID) {
+							ch <- controller.NewID(config.ID)
+						}
+					}
+				} else {
+					log.Warn(err)
+				}
 
 			// If the event is an entity change and the entity has a Configurable aspect, enqueue the
 			// associated Configuration for reconciliation.
